@@ -445,3 +445,15 @@ for _n in ('start_key', 'start_multikey', 'start_section', 'start_multisection')
     _c = _copy.copy(REGISTRY['schema.BaseParser.' + _n])
     _c.qualname = 'schema.ComponentParser.' + _n
     REGISTRY[_c.qualname] = _c
+_PP = REGISTRY['schema.BaseParser.push_prefix']
+contract('schema.ComponentParser.start_component', params={'attrs': ATTRS},
+         requires=[_PP.requires[0], _PP.requires[1]],
+         modifies=['self._schema', 'self._prefixes'],
+         ensures=[Clause('self._schema is not None and val(self._schema) == self._parent', carries='C10,C11',
+                         label='a-component-extends-the-schema-that-imports-it'),
+                  Clause("self._prefixes == old(self._prefixes) + [new_prefix(old(self._prefixes), attrs.get('prefix'), %s)]" % PFX_CONV,
+                         carries='C11', label='prefix-scope-opened')],
+         raises=[Raise('ZConfig.SchemaError+', when=_PP.raises[0].when, carries='C10,C11', label='ill-formed-prefix')])
+contract('schema.ComponentParser.end_component', requires=[Clause('len(self._prefixes) > 0', label='inside-an-element-that-pushed')],
+         modifies=['self._prefixes'],
+         ensures=[Clause('self._prefixes == old(self._prefixes)[:-1]', carries='C11', label='prefix-scope-ends-with-the-element')])
